@@ -20,6 +20,12 @@ def chainTotal {α} (score : α → Rat) (join : α → α → Option Rat) : Lis
     | some j, some r => some (score a + j + r)
     | _, _           => none
 
+/-- `R` holds between every two consecutive members -/
+def Consec {α} (R : α → α → Prop) : List α → Prop
+  | []          => True
+  | [_]         => True
+  | a :: b :: t => R a b ∧ Consec R (b :: t)
+
 /-- `x ≤ y` where `none` is −∞ on the left -/
 def leOpt (x : Option Rat) (y : Rat) : Prop :=
   match x with
